@@ -82,7 +82,7 @@ def execute(ctx, case: dict) -> None:
     def weird(line, idx):
         # inside one line every Unicode blank is a blank (str.split): form feed, CR, vertical tab, NEL, ... separate tokens, not lines
         chars = case.get("blanks")
-        if not chars or " " not in line or case.get("via_config"):  # the configuration reader splits lines with str.splitlines
+        if not chars or " " not in line or case.get("via_config") or case.get("via"):  # the configuration reader splits lines with str.splitlines
             return line
         return line.replace(" ", chars[idx % len(chars)], 1) if idx % 3 == 0 else line
 
@@ -103,6 +103,17 @@ def execute(ctx, case: dict) -> None:
                 return
             obj = got[0]
             ctx.count("config_level_constructions")
+        elif case.get("via") == "addrgroups":
+            # the same group through the config-level function (the `items` path of the class instead of its `line` path)
+            got = cisco_acl.addrgroups(text, **kwargs)
+            if len(got) != 1:
+                ctx.violation(case, "addrgroups() did not return the one group of the configuration", [g.name for g in got])
+                return
+            obj = got[0]
+            ctx.count("addrgroup_via_config_level")
+        elif case.get("via") == "items":
+            obj = cisco_acl.AddrGroup(name=case["header"].split()[-1], items=[ln[0] for ln in lines if ln[0].strip()], **kwargs)
+            ctx.count("addrgroup_via_items")
         else:
             obj = getattr(cisco_acl, cls_name)(text, **kwargs)
     except Exception as ex:  # pylint: disable=broad-except
@@ -264,11 +275,16 @@ def gen_case(rng):
         else:
             tok = _tok()
             bad = rng.choice([f"foo {tok}", "host 300.1.1.1", "10.0.0.0 255.0.255.0" if platform == "ios" else "group-object G9",
-                              f"range {tok}", "10.0.0.0/40", "any" if platform == "ios" else f"any{tok}"])
+                              f"range {tok}", "range 10.0.0.5 10.0.0.9", "10.0.0.0/40", "any" if platform == "ios" else f"any{tok}"])
             lines.append([bad, "invalid", "member", ""])
     name = rng.choice(["G1", "NET-A", "x_1"])
     header = f"object-group network {name}" if platform == "ios" else f"object-group ip address {name}"
     case = {"cls": "AddrGroup", "platform": platform, "lines": lines, "indent": indent, "header": header}
+    roll = rng.random()
+    if roll < 0.25:
+        case["via"] = "addrgroups"  # (no exotic blanks there: the configuration reader splits lines itself)
+    elif roll < 0.45:
+        case["via"] = "items"
     if rng.random() < 0.15:
         case["blanks"] = rng.sample(["\x0c", "\r", "\x0b", "\x1c", "\x85", "\u2028", "\t"], 3)
     return case
